@@ -157,7 +157,7 @@ theorem updClosed_ltMax_average (E : ExactLaws K) :
   simp only [updFn, pure, Except.pure, Except.ok.injEq] at h
   subst h
   have L := E.field
-  simp only [Gen.average, L.add, L.mul, L.div, L.ofNat]
+  rw [L.average_eq_mean va vb sa sb (by omega)]
   have ha' : (0 : K) < (sa : K) := Nat.cast_pos.mpr hsa
   have hb' : (0 : K) < (sb : K) := Nat.cast_pos.mpr hsb
   rw [div_lt_iff₀ (by linarith)]
